@@ -113,6 +113,11 @@ def cases(shard, nshards, seed, tier):
                 yield {"family": "T4-format-field-edges", "file": fn, "base_ops": [], "twin": {"kind": "T4", "edges": f"{seed}:{fn}:edges{t}"}}
             if mine():
                 yield {"family": "T4-format-atom-on-origin", "file": fn, "base_ops": [{"op": "atom-to-origin", "seed": f"{seed}:{fn}:o4{t}"}], "twin": {"kind": "T4"}}
+    # size: eight copies of a 316-nucleotide RNA in one structure (more than 25 000 donor / acceptor atoms), rigidly moved
+    for t in range(1 if tier == "quick" else 3):
+        if mine():
+            yield {"family": "T1-rigid-large-assembly", "file": "tests/1gid.cif.gz", "base_ops": [{"op": "copies", "n": 8}],
+                   "twin": {"kind": "T1", "ops": [{"op": "rigid", "seed": f"{seed}:large:{t}", "trans": [37.0, -112.0, 255.0]}]}}
     # rigid motion of the file itself, with chains of nearly superposed copies (a-b and b-c closer than 0.5 A, a-c not)
     for fn in [f for f in files if f.endswith(("1ATO.pdb", "1A1T_1_B.cif", "1E7K_1_C.cif", "1HMH_1_E.cif", "184D.cif"))]:
         for t in range(2 if tier == "quick" else 10):
